@@ -35,6 +35,11 @@ package redisemu
 //@ safetyprop none
 //@ requires cc != nil && cc.cs != nil
 //@ modifies *
+// C20: the connection starts to read only when, under its mutex, it found no close requested and announced itself as
+// waiting in the same critical section (a close request then closes the socket; one that came earlier is seen here)
+//@ ghost gWaitSawClosing bool
+//@ ghostafter "closing := cc.closing" : gWaitSawClosing = closing
+//@ assertbefore "n, err := cc.cxn.Read(buffer)" [C20,C12] reads.only.open: !gWaitSawClosing && !closing
 //@ assertbefore "n, err := cc.cxn.Read(buffer)" [C01] fresh.buffer: madehere(buffer) && len(buffer) > 0
 //@ assertbefore "cc.inbound = cc.inbound[length:]" [C01] consume.exact: 0 < length && length <= len(cc.inbound)
 
